@@ -171,3 +171,27 @@ package controller
 //@     invariant same((*f).fan, *fan)
 //@     invariant ctrlInv(*f)
 //@     invariant mapInv(*f)
+
+// ---- start-up: stored characterisation is reused (C15) ------------------------------------------------------
+//@ ghost var initRuns int
+//@ pure cfgMap(fan fans.Fan) *map[int]int = fan is *fans.HwMonFan ? fan.(*fans.HwMonFan).Config.PwmMap : (fan is *fans.FileFan ? fan.(*fans.FileFan).Config.PwmMap : fan.(*fans.CmdFan).Config.PwmMap)
+
+//@ extern func fmt.Println(a []any) (n int, err error)
+//@   effectfree
+//@   trusted "printing has no effect on program state"
+
+//@ func (*DefaultFanController).computePwmMapAutomatically
+//@   safety C09
+//@   requires f != nil && fans.fanWF(f.fan)
+//@   ensures f.pwmMap != nil
+//@   modifies f.pwmMap, pwmWrites, lastPwm, lastPwmErr, modeWrites, lastMode, modeVerified, fileInt, procWorld, started, lastReadFailed, supportsResult, f.fan.(*fans.HwMonFan).Pwm, f.fan.(*fans.FileFan).Pwm, f.fan.(*fans.CmdFan).Pwm
+//@   loop 1 "for i := fans.MaxPwmValue; i >= fans.MinPwmValue; i--"
+//@     invariant pwmMap != nil && fresh(pwmMap) && fans.fanWF(f.fan) && f.fan == old(f.fan)
+
+//@ func (*DefaultFanController).computePwmMap
+//@   props C15
+//@   safety C09
+//@   requires f != nil && fans.fanWF(f.fan) && f.persistence != nil && persistence.dbWF()
+//@   ensures[C15.config] old(cfgMap(f.fan)) != nil ==> err == nil && ref(f.pwmMap) == old(ref(*cfgMap(f.fan))) && pwmWrites == old(pwmWrites) && modeWrites == old(modeWrites)
+//@   ensures[C15.stored] old(cfgMap(f.fan)) == nil && mapLoadOK[old(mapLoadCount)] && mapLoadRes[old(mapLoadCount)] != 0 ==> err == nil && ref(f.pwmMap) == mapLoadRes[old(mapLoadCount)] && pwmWrites == old(pwmWrites) && modeWrites == old(modeWrites)
+//@   modifies anything
